@@ -7,7 +7,7 @@ sys.path.insert(0, "/verif")
 from checks import c07
 from pyspark.sql import SparkSession
 import pyspark.sql.functions as F
-from pyspark.sql.types import StructType, StructField, LongType
+from pyspark.sql.types import StructType, StructField, LongType, StringType
 
 spark = (SparkSession.builder.master("local[1]").config("spark.ui.enabled", "false")
          .config("spark.sql.shuffle.partitions", "1").getOrCreate())
@@ -26,7 +26,7 @@ picked, fam = [], {}
 for c in cases:
     k = fam.get(c.origin, 0)
     fam[c.origin] = k + 1
-    if c.origin in ("corpus", "nest2", "byname-missing", "spelling", "left-ref", "ordered-operand") or (c.origin == "random" and k < n_random) or (c.origin != "random" and k % 3 == 0):
+    if c.origin in ("corpus", "nest2", "byname-missing", "spelling", "left-ref", "ordered-operand", "literal-case") or (c.origin == "random" and k < n_random) or (c.origin != "random" and k % 3 == 0):
         picked.append(c)
 # programs PySpark must refuse (the spec answers None): width mismatch, unionByName with other names
 tabs = c07.FIXED
@@ -41,7 +41,7 @@ for c in picked:
     rec = c.to_json()
     rec["origin"] = c.origin
     try:
-        dfs = [spark.createDataFrame(rows, StructType([StructField(x, LongType(), True) for x in cols]))
+        dfs = [spark.createDataFrame(rows, StructType([StructField(x, StringType() if x in c07.STR_COLS else LongType(), True) for x in cols]))
                for cols, rows in c.tables]
         d = c07.build(c.tree, dfs, F, {} if c.share else None)
         if c.post == "groupcount":
